@@ -73,7 +73,7 @@ theorem idcStarFuel_fragX_path (hord : PermOrder ordf) {O : Event} {x : Name} (h
     (no' : Event)
     (hex : ∀ cf nev, makeCounterfactualGraph ordf G (O ++ condOf x) = .ok (cf, some nev) →
       (∃ c', firstExchangeable cf O.keys (condOf x).keys = .ok (some c')) ∧
-      exchangeStep cf O (Var.plain x) (unstar x) = .ok (some no'))
+      exchangeStep cf O (Var.plain x) (unstar x) [] = .ok (some no'))
     (hnd : (no'.map (·.1)).Nodup)
     (hkeep : ∀ cf2 o, makeCounterfactualGraph ordf G no' = .ok (cf2, o) →
       ∃ nev2, o = some nev2 ∧ ∀ p ∈ no', nev2.has p.1 = true)
@@ -130,9 +130,9 @@ theorem idcStarFuel_fragX_path (hord : PermOrder ordf) {O : Event} {x : Name} (h
         subst hc'
         rw [condOf_get] at h
         simp only at h
+        rw [condOf_filter] at h
         rw [hxo] at h
         simp only at h
-        rw [condOf_filter] at h
         exact idcStarFuel_no_conditions ordf dordf kordf G no' hnd hkeep fuel e h
 
 /-! ### the exchanged outcomes are in the fragment of ID* -/
@@ -329,7 +329,7 @@ theorem idcStarFuel_sound_fragX (M : Model) (ν : BaseValues) (dom : Name → Na
     (hord : PermOrder ordf) (hdo : PermDistrict dordf) {O : Event} {x : Name} (hfr : FragC G O (condOf x)) (hOne : O ≠ [])
     (hex : ∀ cf nev, makeCounterfactualGraph ordf G (O ++ condOf x) = .ok (cf, some nev) →
       (∃ c', firstExchangeable cf O.keys (condOf x).keys = .ok (some c')) ∧
-      exchangeStep cf O (Var.plain x) (unstar x) = .ok (some (exOut O x)))
+      exchangeStep cf O (Var.plain x) (unstar x) [] = .ok (some (exOut O x)))
     (hkeep : ∀ cf2 nev2, makeCounterfactualGraph ordf G (exOut O x) = .ok (cf2, some nev2) →
       ∀ p ∈ exOut O x, nev2.has p.1 = true)
     (fuel : Nat) (e : Expr) (h : idcStarFuel ordf dordf kordf G (fuel + 2) O (condOf x) = .ok e)
@@ -382,7 +382,7 @@ theorem mapM_ok_self {α : Type} (f : α → Except Err α) : ∀ (l : List α),
 
 /-- when no outcome descends from the condition the exchange leaves the outcomes as they are -/
 theorem exchangeOutcomes_none (cf : MG Var) (O : Event) (c : Var) (val : Iv) (hnd : (O.map (·.1)).Nodup)
-    (h : exchangeNoneB cf O c = true) : exchangeStep cf O c val = .ok (some O) := by
+    (h : exchangeNoneB cf O c = true) : exchangeStep cf O c val [] = .ok (some O) := by
   unfold exchangeNoneB at h
   rw [List.all_eq_true] at h
   have hm : O.mapM (exchangeKey cf c val) = .ok O := by
@@ -396,7 +396,7 @@ theorem exchangeOutcomes_none (cf : MG Var) (O : Event) (c : Var) (val : Iv) (hn
       rw [ha] at this
       simp only [Bool.not_eq_true'] at this
       simp only [bind, Except.bind, this, Bool.false_eq_true, if_false, pure, Except.pure]
-  exact exchangeStep_of_nodup cf O c val O hm hnd
+  exact exchangeStep_of_nodup cf O c val [] O hm hnd (fun _ _ _ hg => by cases hg)
 
 /-- the outcomes alone are in the (factual) fragment of ID* -/
 theorem FragC.fragO {G : MG Name} {O C : Event} (h : FragC G O C) : Frag G [] O := by
@@ -525,7 +525,7 @@ theorem mapM_ok_map {α β : Type} (f : α → Except Err β) (g : α → β) : 
 /-- when every outcome descends from the condition the exchange re-subscripts all of them -/
 theorem exchangeOutcomes_all {O C : Event} {x : Name} (hfr : FragC G O C) (cf : MG Var)
     (h : exchangeAllB cf O (Var.plain x) = true) :
-    exchangeStep cf O (Var.plain x) (unstar x) = .ok (some (exOut O x)) := by
+    exchangeStep cf O (Var.plain x) (unstar x) [] = .ok (some (exOut O x)) := by
   unfold exchangeAllB at h
   rw [List.all_eq_true] at h
   have hm : O.mapM (exchangeKey cf (Var.plain x) (unstar x)) = .ok (O.map fun p => (atWorld p.1.name [unstar x], p.2)) := by
@@ -545,7 +545,7 @@ theorem exchangeOutcomes_all {O C : Event} {x : Name} (hfr : FragC G O C) (cf : 
       simp only [bind, Except.bind, this, if_true, hi, pure, Except.pure]
   have hex : (O.map fun p => (atWorld p.1.name [unstar x], p.2)) = exOut O x := rfl
   rw [hex] at hm
-  exact exchangeStep_of_nodup cf O _ _ _ hm (exOut_keys_nodup G hfr)
+  exact exchangeStep_of_nodup cf O _ _ [] _ hm (exOut_keys_nodup G hfr) (fun _ _ _ hg => by cases hg)
 
 /-- `exchangeAllB` says that every outcome descends from `X` in `G` -/
 theorem desc_of_exchangeAll (hord : PermOrder ordf) (hG : G.WF) (hdl : ∀ e ∈ G.di, e.1 ≠ e.2) (hbl : ∀ e ∈ G.bi, e.1 ≠ e.2)
